@@ -6,5 +6,5 @@ pd=/verif/seeded/refactor/$a-s$n/patch.diff; [ -f $pd ] || pd=/tmp/wts_$a/out/r$
 git -C /tmp/wtx checkout -q --detach $(git -C /repo rev-parse HEAD) 2>/dev/null; git -C /tmp/wtx checkout -q -- . ; git -C /tmp/wtx clean -fdq
 git -C /tmp/wtx apply $pd || { echo "patch does not apply"; exit 3; }
 mkdir -p /tmp/evalverif2; cp /verif/known-findings.txt /tmp/evalverif2/
-timeout 900 ${PCHECK:-/tmp/pcheck2} -prop $p -tier quick -repo /tmp/wtx -verif /tmp/evalverif2 "$@" 2>&1 | grep -v '^VIOLATION\|^KNOWN' | grep 'VIOLATED\|UNDECIDED\|BROKEN\|^property' | cut -c1-${W:-400}
+timeout 900 ${PCHECK:-/tmp/pcheck3} -prop $p -tier quick -repo /tmp/wtx -verif /tmp/evalverif2 "$@" 2>&1 | grep -v '^VIOLATION\|^KNOWN' | grep 'VIOLATED\|UNDECIDED\|BROKEN\|^property' | cut -c1-${W:-400}
 [ -n "$KEEP" ] || git -C /tmp/wtx checkout -q -- .
